@@ -42,7 +42,9 @@ Pool == <<
   <<93, 64, 5, 139, 32, 186, 126>>,   \* 5d40058b20ba7e DF11 40058b
   <<88, 26, 26, 26, 196, 130, 56>>,   \* 581a1a1ac48238 DF11 1a1a1a (three 0x1A)
   <<132, 73, 124, 210, 63, 8, 36, 18, 139, 47, 51, 2, 107, 253>>,   \* 84497cd23f0824128b2f33026bfd DF16 485020
-  <<40, 192, 199, 64, 236, 191, 253>> >>   \* 28c0c740ecbffd DF5  00001a
+  <<40, 192, 199, 64, 236, 191, 253>>,   \* 28c0c740ecbffd DF5  00001a
+  <<140, 72, 65, 117, 58, 154, 21, 50, 55, 174, 240, 242, 117, 190>>,   \* 8c4841753a9a153237aef0f275be DF17 484175 surface position (odd)
+  <<140, 72, 65, 117, 58, 171, 35, 135, 51, 200, 205, 64, 32, 177>> >>   \* 8c4841753aab238733c8cd4020b1 DF17 484175 surface position (even)
 NPool == Len(Pool)
 ASSUME \A x \in 1..NPool : WellFormedPayload(Pool[x])
 
@@ -75,6 +77,9 @@ PushFrame(r, round) == <<26, 51, 255, round, 0, 0, 0, r, 40>> \o PushPayload(r, 
 StepKinds == <<"new", "new", "new", "dupother", "dupother", "dupother", "dupother", "dupsame", "bad", "modeac", "status">>
 GapBag == <<"zero", "dup", "dup", "mid", "mid", "far">>
 ChunkBag == <<"whole", "whole", "dribble", "esc", "k7", "straddle">>
+(* the reference position of a receiver (`@lat,lon` of its source string); "" = none. *)
+(* main.rs picks the reference for decode_position from the record's first reception. *)
+RefBag == <<"", "", "43.6,1.36", "48.7,2.38">>
 FilterClasses == <<"absent", "absent", "absent", "absent", "some", "some", "some", "empty", "other">>
 
 (* ---------------------------------------------------------------------- *)
@@ -86,52 +91,70 @@ FilterClasses == <<"absent", "absent", "absent", "absent", "some", "some", "some
 (*     kept frames (far apart): the hidden record is certainly in the table *)
 (*  F4 W=200: X on rx1, rx2, rx1 (dup, mid) around an undecodable frame ->    *)
 (*     one record of three receptions                                        *)
+(*  F5, F6 mixed set-ups (receivers with and without a reference position):   *)
+(*     airborne / surface / DF18 position frames, even and odd, heard first   *)
+(*     by the receiver WITHOUT a reference and first by the one WITH one       *)
 (* ---------------------------------------------------------------------- *)
 St(r, s, c, pay, dec, g) == [rx |-> r, fr |-> Frame(TypeFor(pay), s, c, pay), dec |-> dec, gap |-> g]
 FixedPush(n) == [round \in 1..3 |-> [r \in 1..n |-> PushFrame(r, round)]]
 Absent0 == <<>>
 Fixed == <<
   [w |-> 0, nrx |-> 2, via |-> "cli", df_present |-> FALSE, df_list |-> <<>>, ac_present |-> FALSE, ac_list |-> <<>>,
-   chunk |-> <<"whole", "esc">>,
+   chunk |-> <<"whole", "esc">>, ref |-> <<"", "">>,
    steps |-> << St(1, 1, 0, Pool[1], TRUE, "zero"), St(2, 2, 3, Pool[1], TRUE, "dup"),
                 St(1, 3, 1, Pool[4], TRUE, "mid"), St(2, 4, 2, Pool[4], TRUE, "zero") >>,
    push |-> FixedPush(2)],
   [w |-> 120, nrx |-> 2, via |-> "cli", df_present |-> FALSE, df_list |-> <<>>, ac_present |-> FALSE, ac_list |-> <<>>,
-   chunk |-> <<"dribble", "whole">>,
+   chunk |-> <<"dribble", "whole">>, ref |-> <<"43.6,1.36", "48.7,2.38">>,
    steps |-> << St(1, 1, 4, Pool[2], TRUE, "zero"), St(2, 2, 0, Pool[9], TRUE, "far"),
                 St(2, 3, 5, Pool[2], TRUE, "far") >>,
    push |-> FixedPush(2)],
   [w |-> 200, nrx |-> 1, via |-> "toml", df_present |-> TRUE, df_list |-> <<17>>, ac_present |-> FALSE, ac_list |-> <<>>,
-   chunk |-> <<"k7">>,
+   chunk |-> <<"k7">>, ref |-> <<"43.6,1.36">>,
    steps |-> << St(1, 1, 2, Pool[15], TRUE, "zero"), St(1, 2, 0, Pool[1], TRUE, "far"),
                 St(1, 3, 0, Pool[4], TRUE, "far") >>,
    push |-> FixedPush(1)],
   [w |-> 200, nrx |-> 2, via |-> "cli", df_present |-> FALSE, df_list |-> <<>>, ac_present |-> FALSE, ac_list |-> <<>>,
-   chunk |-> <<"straddle", "esc">>,
+   chunk |-> <<"straddle", "esc">>, ref |-> <<"", "43.6,1.36">>,
    steps |-> << St(1, 1, 1, Pool[6], TRUE, "zero"), St(2, 2, 3, Pool[6], TRUE, "dup"),
                 St(2, 3, 0, BadPool[1], FALSE, "zero"), St(1, 4, 2, Pool[6], TRUE, "mid") >>,
-   push |-> FixedPush(2)] >>
+   push |-> FixedPush(2)],
+  [w |-> 200, nrx |-> 2, via |-> "cli", df_present |-> FALSE, df_list |-> <<>>, ac_present |-> FALSE, ac_list |-> <<>>,
+   chunk |-> <<"whole", "whole">>, ref |-> <<"", "43.6,1.36">>,
+   steps |-> << St(1, 1, 0, Pool[2], TRUE, "zero"), St(2, 2, 0, Pool[2], TRUE, "dup"),        \* airborne even: unlocated first
+                St(2, 3, 0, Pool[22], TRUE, "far"), St(1, 4, 1, Pool[22], TRUE, "dup"),        \* surface odd: located first
+                St(1, 5, 0, Pool[13], TRUE, "far"), St(2, 6, 3, Pool[13], TRUE, "dup"),        \* DF18 position: unlocated first
+                St(2, 7, 0, Pool[3], TRUE, "far"), St(1, 8, 0, Pool[3], TRUE, "dup") >>,       \* airborne odd: located first
+   push |-> FixedPush(2)],
+  [w |-> 120, nrx |-> 3, via |-> "toml", df_present |-> FALSE, df_list |-> <<>>, ac_present |-> FALSE, ac_list |-> <<>>,
+   chunk |-> <<"whole", "k7", "whole">>, ref |-> <<"48.7,2.38", "", "43.6,1.36">>,
+   steps |-> << St(2, 1, 0, Pool[23], TRUE, "zero"), St(1, 2, 0, Pool[23], TRUE, "dup"), St(3, 3, 2, Pool[23], TRUE, "dup"),
+                St(3, 4, 0, Pool[5], TRUE, "far"), St(2, 5, 4, Pool[5], TRUE, "dup"),
+                St(2, 6, 0, Pool[6], TRUE, "far"), St(3, 7, 0, Pool[6], TRUE, "dup") >>,
+   push |-> FixedPush(3)] >>
 ASSUME Env("GEN_FIXED", 0) = 1 => \A x \in 1..Len(Fixed) : PrintT(ToJson(Fixed[x]))
 
-VARIABLES gw, gnrx, gvia, gdfc, gacc, gchunk, gn, gsteps, gpend, gdone
-gvars == <<gw, gnrx, gvia, gdfc, gacc, gchunk, gn, gsteps, gpend, gdone>>
+VARIABLES gw, gnrx, gvia, gdfc, gacc, gchunk, gref, gn, gsteps, gpend, gdone
+gvars == <<gw, gnrx, gvia, gdfc, gacc, gchunk, gref, gn, gsteps, gpend, gdone>>
 
 Bag(seq) == {seq[x] : x \in 1..Len(seq)}
 (* the scenario parameters are drawn one per step (a single initial state; the *)
 (* simulator chooses uniformly among the successors of each step)              *)
-Init == /\ gw = -1 /\ gnrx = 0 /\ gvia = "" /\ gdfc = 0 /\ gacc = 0 /\ gchunk = <<>> /\ gn = 0
+Init == /\ gw = -1 /\ gnrx = 0 /\ gvia = "" /\ gdfc = 0 /\ gacc = 0 /\ gchunk = <<>> /\ gref = <<>> /\ gn = 0
         /\ gsteps = <<>> /\ gpend = <<>> /\ gdone = FALSE
 SetupDone == gn # 0
 Setup ==
   /\ ~SetupDone
-  /\ \/ gw = -1 /\ gw' \in 1..Len(WBag) /\ UNCHANGED <<gnrx, gvia, gdfc, gacc, gchunk, gn>>
-     \/ gw # -1 /\ gnrx = 0 /\ gnrx' \in 1..MaxRx /\ UNCHANGED <<gw, gvia, gdfc, gacc, gchunk, gn>>
-     \/ gnrx # 0 /\ gvia = "" /\ gvia' \in {"cli", "toml"} /\ UNCHANGED <<gw, gnrx, gdfc, gacc, gchunk, gn>>
-     \/ gvia # "" /\ gdfc = 0 /\ gdfc' \in 1..Len(FilterClasses) /\ UNCHANGED <<gw, gnrx, gvia, gacc, gchunk, gn>>
-     \/ gdfc # 0 /\ gacc = 0 /\ gacc' \in 1..Len(FilterClasses) /\ UNCHANGED <<gw, gnrx, gvia, gdfc, gchunk, gn>>
+  /\ \/ gw = -1 /\ gw' \in 1..Len(WBag) /\ UNCHANGED <<gnrx, gvia, gdfc, gacc, gchunk, gref, gn>>
+     \/ gw # -1 /\ gnrx = 0 /\ gnrx' \in 1..MaxRx /\ UNCHANGED <<gw, gvia, gdfc, gacc, gchunk, gref, gn>>
+     \/ gnrx # 0 /\ gvia = "" /\ gvia' \in {"cli", "toml"} /\ UNCHANGED <<gw, gnrx, gdfc, gacc, gchunk, gref, gn>>
+     \/ gvia # "" /\ gdfc = 0 /\ gdfc' \in 1..Len(FilterClasses) /\ UNCHANGED <<gw, gnrx, gvia, gacc, gchunk, gref, gn>>
+     \/ gdfc # 0 /\ gacc = 0 /\ gacc' \in 1..Len(FilterClasses) /\ UNCHANGED <<gw, gnrx, gvia, gdfc, gchunk, gref, gn>>
      \/ gacc # 0 /\ Len(gchunk) < gnrx /\ \E x \in 1..Len(ChunkBag) : gchunk' = Append(gchunk, x)
-            /\ UNCHANGED <<gw, gnrx, gvia, gdfc, gacc, gn>>
-     \/ gacc # 0 /\ Len(gchunk) = gnrx /\ gn' \in 2..MaxSteps /\ UNCHANGED <<gw, gnrx, gvia, gdfc, gacc, gchunk>>
+            /\ UNCHANGED <<gw, gnrx, gvia, gdfc, gacc, gref, gn>>
+     \/ gacc # 0 /\ Len(gchunk) = gnrx /\ Len(gref) < gnrx /\ \E x \in 1..Len(RefBag) : gref' = Append(gref, x)
+            /\ UNCHANGED <<gw, gnrx, gvia, gdfc, gacc, gchunk, gn>>
+     \/ gacc # 0 /\ Len(gref) = gnrx /\ gn' \in 2..MaxSteps /\ UNCHANGED <<gw, gnrx, gvia, gdfc, gacc, gchunk, gref>>
   /\ UNCHANGED <<gsteps, gpend, gdone>>
 
 LastPay == IF gsteps = <<>> THEN Pool[1] ELSE Payload(gsteps[Len(gsteps)].fr)
@@ -171,10 +194,10 @@ Draw ==
              LET g == IF gpend[1] = "dupother" /\ x <= 4 THEN "dup" ELSE GapBag[x] IN
              /\ gpend' = <<>>
              /\ gsteps' = Append(gsteps, [rx |-> gpend[2].rx, fr |-> gpend[2].fr, dec |-> gpend[2].dec, gap |-> g])
-  /\ UNCHANGED <<gw, gnrx, gvia, gdfc, gacc, gchunk, gn, gdone>>
+  /\ UNCHANGED <<gw, gnrx, gvia, gdfc, gacc, gchunk, gref, gn, gdone>>
 
 Finish == /\ SetupDone /\ Len(gsteps) = gn /\ ~gdone /\ gdone' = TRUE
-          /\ UNCHANGED <<gw, gnrx, gvia, gdfc, gacc, gchunk, gn, gsteps, gpend>>
+          /\ UNCHANGED <<gw, gnrx, gvia, gdfc, gacc, gchunk, gref, gn, gsteps, gpend>>
 Next == Setup \/ Draw \/ Finish
 Spec == Init /\ [][Next]_gvars
 
@@ -197,6 +220,7 @@ Scenario ==
    df_present |-> DfClass # "absent", df_list |-> SetToSortedSeq(DfList),
    ac_present |-> AcClass # "absent", ac_list |-> SetToSortedSeq(AcList),
    chunk |-> [r \in 1..gnrx |-> ChunkBag[gchunk[r]]],
+   ref |-> [r \in 1..gnrx |-> RefBag[gref[r]]],
    steps |-> gsteps,
    push |-> [round \in 1..3 |-> [r \in 1..gnrx |-> PushFrame(r, round)]]]
 Emit == IF gdone THEN PrintT(ToJson(Scenario)) ELSE TRUE
